@@ -158,7 +158,7 @@ func init() {
 func init() {
 	addProp(&PropSpec{
 		ID:          "C12",
-		Rules:       []string{"R-CMPMATRIX", "R-CMPTABLE", "R-STRPRED", "R-PREDLOOP", "R-REGEXFLAGS", "R-TOWER", "R-F2I", "R-ZONE", "R-CMPNORM", "R-EXECADDR"},
+		Rules:       []string{"R-CMPMATRIX", "R-CMPTABLE", "R-STRPRED", "R-PREDLOOP", "R-REGEXFLAGS", "R-TOWER", "R-F2I", "R-ZONE", "R-CMPNORM", "R-EXECADDR", "R-EXACTCMP"},
 		Explanation: "The comparison layer is a stack of finite decision procedures, each extracted and compared with the stated order: the type dispatch as a 13×13 matrix obtained by walking the dispatcher once per ordered pair of item types (abstract interpretation with singleton type sets, descending into the datetime 5×5 helpers), the operator×sign table, the boolean and numeric three-way helpers, the lax-existential/strict-universal pairwise loop, the like_regex flag translation for all 32 flag sets, and the numeric tower as sibling agreement of type switches.",
 		Decided: []string{"R-CMPMATRIX: which pairs are comparable / null rule / unknown / incomparable / guarded by WithTZ (169 cells)",
 			"R-CMPTABLE: ==,!=,<,>,<=,>= applied to a sign; false<true; −1/0/+1 for </=/> (antisymmetry and duality are properties of these tables)",
